@@ -308,7 +308,7 @@ def run_case(w, setup, extra, loop, n, threshold, observe):
     """One measured job: [setup; aliases] then the loop.  Returns (events, job)."""
     stmts = ["; ".join(subst(s, n) for s in list(setup) + list(extra)), subst(loop, n)]
     # mem: the harness's live-bytes budget per job; the canonical dump of a 400 000-element list alone needs ~300 MB
-    opts = dict(alloc=True, big_threshold=threshold, share=True, observe=list(observe), values=False, fuel=_fuel(n), mem=MEM)
+    opts = dict(alloc=True, big_threshold=threshold, share=True, observe=list(observe), observe_values=False, values=False, fuel=_fuel(n), mem=MEM)
     evs = core.eval_all(w, stmts, jid="c02", **opts)
     job = {"kind": "eval", "stmts": stmts, "fuel": _fuel(n)}
     job.update(opts)
